@@ -201,6 +201,25 @@ static J gen_fold(Chooser &ch)
   o.uniform_only = true; o.operations = true; o.model_ranges = true; o.line_model_ranges = false; o.top_truncation = false;
   o.global_constants = ch.flip(); o.hub_spread_km = 150;
   g::GW w = g::gen_world(ch, o);
+  // 30% of the oceanic and subducting plates also carry a 'tian water content' model somewhere in their composition list: the value
+  // it gives to the composition it lists is not a closed form of the file, but what its operation does to the compositions it does
+  // not list is (replace clears them, every other operation leaves them alone)
+  for (size_t i = 0; i < w.feats.size(); ++i)
+    if ((w.feats[i].type == "oceanic plate" || w.feats[i].type == "subducting plate") && ch.chance(30))
+      {
+        J &f = w.root["features"][i];
+        J t = J::obj();
+        t["model"] = "tian water content";
+        t["compositions"] = J::arr({J(static_cast<int>(ch.range(0, 5)))});
+        t["lithology"] = ch.pick<std::string>({"peridotite", "gabbro", "MORB", "sediment"});
+        t["initial water content"] = ch.lattice(0.5, 5, 0.5);
+        t["cutoff pressure"] = ch.lattice(1, 26, 1);
+        if (ch.chance(50)) t["operation"] = ch.pick<std::string>({"replace", "replace defined only", "add", "subtract"});
+        if (w.feats[i].type == "oceanic plate" && ch.chance(40)) t["max depth"] = w.feats[i].dmin + ch.lattice(0.25, 0.75, 0.25) * (w.feats[i].dmax - w.feats[i].dmin);
+        if (!f.has("composition models")) f["composition models"] = J::arr();
+        J &list = f["composition models"];
+        list.a.insert(list.a.begin() + static_cast<long>(ch.index(list.size() + 1)), t);
+      }
   J c = J::obj();
   c["world"] = w.root.dump();
   c["queries"] = g::gen_queries(ch, w, static_cast<int>(ch.range(2, 10)), 92);
@@ -241,6 +260,7 @@ static Result check_fold(const J &c)
       std::set<std::string> ops;
       double T = Tp * std::exp(al * gm * depth / cp);
       double comp[6] = {0, 0, 0, 0, 0, 0};
+      bool comp_known[6] = {true, true, true, true, true, true}; // false: painted by a model whose value is no closed form of the file
       std::string tag = "<none>";
       for (size_t fi : cov)
         {
@@ -260,7 +280,8 @@ static Result check_fold(const J &c)
               if (in_range(m, type, depth))
                 {
                   const std::string op = m.has("operation") ? m.at("operation").str() : "replace";
-                  ops.insert("c:" + op);
+                  const bool water = m.at("model").str() == "tian water content";
+                  ops.insert(std::string(water ? "c(water):" : "c:") + op);
                   for (int n = 0; n < 6; ++n)
                     {
                       bool listed = false;
@@ -269,10 +290,12 @@ static Result check_fold(const J &c)
                           {
                             const double fr = m.has("fractions") ? m.at("fractions")[k].num() : 1.0;
                             comp[n] = apply_op(op, comp[n], fr);
+                            if (water) comp_known[n] = false;
+                            else if (op == "replace" || op == "replace defined only") comp_known[n] = true;
                             listed = true;
                             break;
                           }
-                      if (!listed && op == "replace") comp[n] = 0.0;
+                      if (!listed && op == "replace") { comp[n] = 0.0; comp_known[n] = true; }
                     }
                 }
         }
@@ -286,7 +309,8 @@ static Result check_fold(const J &c)
       if (!close_rel(out[0], T, 1e-12))
         return Result::fail("fold-temperature", "temperature " + fmt(out[0]) + ", in-order fold of the covering features " + std::to_string(cov.size()) + " gives " + fmt(T) + "; query " + q.dump());
       for (int n = 0; n < 6; ++n)
-        if (!close_rel(out[1 + static_cast<size_t>(n)], comp[n], 1e-12, 1e-13))
+        if (!comp_known[n]) r.classes.push_back("composition painted by a water model (not asserted)");
+        else if (!close_rel(out[1 + static_cast<size_t>(n)], comp[n], 1e-12, 1e-13))
           return Result::fail("fold-composition", "composition " + std::to_string(n) + " is " + fmt(out[1 + static_cast<size_t>(n)]) + ", in-order fold gives " + fmt(comp[n]) + "; query " + q.dump());
       const std::string got_tag = tag_string(*W, out.back());
       if (got_tag != tag) return Result::fail("fold-tag", "tag is '" + got_tag + "', the last feature containing the point has tag '" + tag + "'; query " + q.dump());
